@@ -186,7 +186,38 @@ func (g *fgen) clauseEnv(st *state, at *ssa.BasicBlock, phiOverride map[*ssa.Phi
 		e.vars[k] = v
 	}
 	e.local = func(name string) (val, bool) { return g.localVar(name, st, at, phiOverride) }
+	if at != nil && g.loops[at] != nil {
+		e.loopVar = func(name string) (val, bool) {
+			if _, isParam := g.params[name]; !isParam {
+				return val{}, false
+			}
+			return g.phiVar(name, at, phiOverride)
+		}
+	}
 	return e
+}
+
+// phiVar: the header phi (of this loop or an enclosing one) for source variable name.
+func (g *fgen) phiVar(name string, at *ssa.BasicBlock, phiOverride map[*ssa.Phi]string) (val, bool) {
+	for b := at; b != nil; b = b.Idom() {
+		for _, in := range b.Instrs {
+			phi, ok := in.(*ssa.Phi)
+			if !ok {
+				break
+			}
+			if phi.Comment == name {
+				if phiOverride != nil {
+					if t, ok := phiOverride[phi]; ok {
+						return val{t, phi.Type(), g.sortOf(phi.Type())}, true
+					}
+				}
+				if v, ok := g.vals[phi]; ok {
+					return v, true
+				}
+			}
+		}
+	}
+	return val{}, false
 }
 
 // localVar resolves a source-level local variable name at block `at`.
@@ -445,6 +476,13 @@ func (g *fgen) run() {
 	g.assumeGinvs(g.entry)
 	// requires
 	env := g.clauseEnv(g.entry, nil, nil)
+	for _, c := range fc.witnesses {
+		v, err := env.safeTr(c)
+		if err != nil {
+			panic(transErr(err.Error()))
+		}
+		g.witTerms = append(g.witTerms, v)
+	}
 	for _, c := range fc.requires {
 		t, err := env.safeBool(c)
 		if err != nil {
@@ -1765,6 +1803,7 @@ func (g *fgen) ret(x *ssa.Return, st *state) {
 	}
 	g.assertGinvs(st, "ginv-ret", g.w.srcText(x.Pos(), 0), x.Pos())
 	g.frameObligations(st, x.Pos(), g.w.srcText(x.Pos(), 0))
+	g.modIfObligations(st, x.Pos(), g.w.srcText(x.Pos(), 0))
 	for _, c := range fc.ensures {
 		t, err := env.safeBool(c)
 		if err != nil {
@@ -1779,4 +1818,53 @@ func (g *fgen) ret(x *ssa.Return, st *state) {
 		g.oblige("post", strings.TrimPrefix(c.label, "post:")+"@"+g.w.srcText(x.Pos(), 0), t, x.Pos())
 		g.obls[len(g.obls)-1].src = c.src
 	}
+}
+
+// modIfObligations: callee side of a conditional frame, asserted at a return.  Under the
+// condition (evaluated at entry): every full havoc on the way was itself a call whose
+// conditional frame applied and lets no more keys change than ours; and every heap key
+// this function's verification condition knows, other than the listed ones, has its
+// entry value at every object allocated at entry.
+func (g *fgen) modIfObligations(st *state, pos token.Pos, site string) {
+	fc := g.fc
+	if fc == nil || fc.modIf == nil || fc.trusted {
+		return
+	}
+	env := g.clauseEnv(g.entry, nil, nil)
+	c0, err := env.safeBool(fc.modIf.cond)
+	if err != nil {
+		panic(transErr(err.Error()))
+	}
+	except := g.modIfKeys(fc)
+	for i, ev := range g.fullHavocs {
+		goal := fmt.Sprintf("(=> (and %s %s) %s)", ev.guard, c0, ev.cond)
+		for k := range ev.except {
+			if !except[k] {
+				goal = "false"
+			}
+		}
+		g.oblige("frame-if", fmt.Sprintf("%s/havoc%d", site, i+1), goal, pos)
+		g.obls[len(g.obls)-1].src = "under `" + fc.modIf.cond.src + "` every unbounded call on the way has its own conditional frame active (" + ev.who + ")"
+	}
+	var keys []string
+	for k := range g.heapSort {
+		if !except[k] {
+			keys = append(keys, k)
+		}
+	}
+	sort.Strings(keys)
+	var cs []string
+	for _, k := range keys {
+		a, b := g.read(st, k), g.read(g.entry, k)
+		if a == b {
+			continue
+		}
+		if strings.HasPrefix(g.heapSort[k], "(Array Int") {
+			cs = append(cs, fmt.Sprintf("(forall ((r!f Int)) (=> (and (<= 0 r!f) (<= r!f %s)) (= (select %s r!f) (select %s r!f))))", g.entry.alloc, a, b))
+		} else {
+			cs = append(cs, fmt.Sprintf("(= %s %s)", a, b))
+		}
+	}
+	g.oblige("frame-if", site+"/keys", implies(c0, and(cs...)), pos)
+	g.obls[len(g.obls)-1].src = "under `" + fc.modIf.cond.src + "` only " + strings.Join(fc.modIf.items, ", ") + " may change"
 }
